@@ -2,7 +2,10 @@
 use crate::common::Ctx;
 use serde_json::Value;
 
+pub mod c11;
+pub mod c12;
 pub mod c18;
+pub mod statsgen;
 
 pub fn level_of(id: &str) -> &'static str {
     match id {
@@ -13,6 +16,8 @@ pub fn level_of(id: &str) -> &'static str {
 
 pub fn run(id: &str, ctx: &Ctx) -> bool {
     match id {
+        "C11" => c11::run(ctx),
+        "C12" => c12::run(ctx),
         "C18" => c18::run(ctx),
         _ => return false,
     }
@@ -21,6 +26,8 @@ pub fn run(id: &str, ctx: &Ctx) -> bool {
 
 pub fn replay(id: &str, ctx: &Ctx, case: &Value) -> Option<()> {
     match id {
+        "C11" => c11::check_case(ctx, case),
+        "C12" => c12::check_case(ctx, case),
         "C18" => c18::check_case(ctx, case),
         _ => return None,
     }
